@@ -288,7 +288,7 @@ struct WorldCase {
     std::unique_ptr<Rpc> A, B;              // A: client peer, B: server peer
     std::vector<std::string> cs, sc;        // frames in flight
     std::vector<std::string> cev, sev;
-    int n_tag = 0;
+    int n_tag = 0, n_srsp = 0;
 
     WorldCase(const Kind &k, int nc, int ns) : kind(k) {
         loop = tbox::event::Loop::New();
@@ -345,7 +345,10 @@ struct WorldCase {
             return true;
         }
         if (w[0] == "srsp" && w.size() == 3 && i32(w[1], id) && i32(w[2], code)) {
-            if (code == 0) B->respond(id, Json(7)); else B->respond(id, code);
+            // all three overloads of respond(): (id, errcode, result), (id, result), (id, errcode)
+            bool three = (n_srsp++ % 2) == 0;
+            if (code == 0) { if (three) B->respond(id, 0, Json(7)); else B->respond(id, Json(7)); }
+            else { if (three) B->respond(id, code, Json()); else B->respond(id, code); }
             return true;
         }
         if (w[0] == "adv" && w.size() == 2 && vh::to_u64(w[1], n) && n <= 100000) { vt::advance_ms((int64_t)n); return true; }
